@@ -58,11 +58,11 @@ variable {K : Type} [Field K] [LinearOrder K]
         fbind = []
         for s in allf:
             fbind.append(fb(B if s in B['sig']['fsyms'] else S, s))
-        pre = []
-        if 'sqrt' in B['sig']['uses']:
-            pre.append('(sqrt : K → K)')
-        sq = 'sqrt ' if 'sqrt' in B['sig']['uses'] else ''
-        sqs = 'sqrt ' if 'sqrt' in S['sig']['uses'] else ''
+        extra_b = [u for u in ('sqrt', 'sgn') if u in B['sig']['uses']]
+        extra_s = [u for u in ('sqrt', 'sgn') if u in S['sig']['uses']]
+        pre = [f'({u} : K → K)' for u in extra_b]
+        sq = ''.join(u + ' ' for u in extra_b)
+        sqs = ''.join(u + ' ' for u in extra_s)
         bins, sins = B['inputs'], S['inputs']
         stmts, defs = [], []
         for o in B['sig']['outputs']:
